@@ -51,11 +51,25 @@ ObsBlobOf(o, c) ==
     (CHOOSE e \in es : TRUE).b
 ObsClasses(o) == {e.c : e \in Range(o.iso) \cup Range(o.jol) \cup Range(o.udf)} \ {0}
 
+\* El Torito references in terms of the observed link classes
+ObsClassOf(o, ns, p) ==
+    LET es == {e \in Range(IF ns = "iso" THEN o.iso ELSE IF ns = "jol" THEN o.jol ELSE o.udf) : e.p = p}
+    IN IF es = {} THEN 0 ELSE (CHOOSE e \in es : TRUE).c
+EltFromObs(o, base) ==
+    IF ~o.elt.on THEN NoElt
+    ELSE LET cats == {e.c : e \in {x \in Range(o.iso) \cup Range(o.jol) \cup Range(o.udf) : x.b = "cat"}}
+         IN [on |-> TRUE,
+             catino |-> IF cats # {} THEN CHOOSE c \in cats : TRUE ELSE base.elt.catino,
+             entries |-> [k \in 1..Len(o.elt.entries) |->
+                            IF o.elt.entries[k] = <<>> THEN 0
+                            ELSE ObsClassOf(o, o.elt.entries[k][1][1], o.elt.entries[k][1][2])]]
+
 \* the model state the implementation is actually in (link classes as observed)
 FromObs(o, base) ==
     [base EXCEPT !.iso = ObsTree(o.iso), !.jol = ObsTree(o.jol), !.udf = ObsTree(o.udf),
                  !.blob = [c \in ObsClasses(o) |-> ObsBlobOf(o, c)],
                  !.grp  = [c \in ObsClasses(o) |-> c],
+                 !.elt  = EltFromObs(o, base),
                  !.npvd = o.npvd,
                  !.cfg.level = o.cfg.level]
 
@@ -73,6 +87,14 @@ ObsPartition(o) ==
                \cup {<<"udf", e>> : e \in Range(o.udf)}
         cs  == {x[2].c : x \in {y \in all : y[2].k = "file" /\ y[2].c # 0 /\ ~IsEmptyBlob(y[2].b)}}
     IN {{<<x[1], x[2].p>> : x \in {y \in all : y[2].c = c}} : c \in cs}
+
+\* El Torito: present iff the model says so, and every entry refers to the content the model says
+\* (identified by the set of names of that content; an entry whose boot file was unlinked has none)
+EltMatches(s, oe) ==
+    /\ oe.on = s.elt.on
+    /\ (s.elt.on => /\ Len(oe.entries) = Len(s.elt.entries)
+                     /\ \A k \in 1..Len(oe.entries) :
+                           {<<x[1], x[2]>> : x \in Range(oe.entries[k])} = NameRefs(s, s.elt.entries[k]))
 
 \* ---- what the independent ISO9660/Joliet decoder recovered from the written image ----------
 \* in the plain ISO9660 view a Rock Ridge symlink is an empty file
@@ -120,6 +142,7 @@ MismatchOf(s, o, ti, tj, tu, tr) ==
   \cup (IF Len(o.iso) # Cardinality(DOMAIN ti) \/ Len(o.jol) # Cardinality(DOMAIN tj)
            \/ Len(o.udf) # Cardinality(DOMAIN tu) THEN {"UniqueNames"} ELSE {})
   \cup (IF s.npvd # o.npvd THEN {"NumPvd"} ELSE {})
+  \cup (IF ~EltMatches(s, o.elt) THEN {"EltRefs"} ELSE {})
   \cup (IF o.dec.on THEN DecMismatch(s, o.dec) ELSE {})
   \cup (IF o.err # <<>> THEN {"ProjectionError"} ELSE {})
 Mismatch(s, o) ==
